@@ -1,7 +1,7 @@
 """C08 — MPR penetration result (structural clauses)."""
 from . import scopes
 from ..core.report import DOMAIN_D
-from ..rules import mink, unitdir, loops, unpack
+from ..rules import mink, unitdir, loops, unpack, ericson, misc2
 
 
 def run(idx, rep, tier):
@@ -18,4 +18,7 @@ def run(idx, rep, tier):
     mink.r_par(idx, rep)
     mink.r_mink(idx, rep, modules=["distance3d.mpr", "distance3d.minkowski"], floor=8)
     loops.r_loop(idx, rep, ["distance3d.mpr"], floor=3)
+    ericson.r_ericson(idx, rep)
+    misc2.r_dupcond(idx, rep, [m.name for m in idx.lib_modules()], floor=3)
+    unitdir.r_portaldir(idx, rep)
     unpack.r_unpack(idx, rep, floor=6)
